@@ -12,7 +12,7 @@ CFG = dict(
               "prefix, path id; PeerDown clears the peer; End-of-RIB ignored), at the final synchronisation point == what an established "
               "peer announced, and empty for a peer whose session has ended (end observed on the sentinel station; no GR configured); "
               "histories where the last routes of a session, its end and a new station's snapshot phase overlap",
-              "stalled snapshot (event::verif::c18::c18s): BmpClient::try_connect -> serve on a hand-built Global + a TableManager with ballast "
+              "stalled snapshot (event::verif::c18s): BmpClient::try_connect -> serve on a hand-built Global + a TableManager with ballast "
               "routes (shard walk of subscribe(true) ~10 ms); while the station's snapshot is being taken every sequence up to length 3 "
               "(random beyond, flaps, sequences straddling the end of the walk) over {session ends (FSM path / direct-Terminate path), "
               "session (re-)establishes, announce / withdraw / replace, clear_session_state} of two peers is executed with the daemon's own "
@@ -33,17 +33,17 @@ CFG = dict(
                          "c18:station-streams-judged": 25, "c18:station-rib-departed-peer-empty": 90,
                          "c18:station-rib-departed-peer-had-routes": 30, "c18:station-rib-established-peer-equal": 120,
                          "c18:e2e-histories-with-delay-injection": 8,
-                         # stalled-snapshot scenarios (event::verif::c18::c18s)
+                         # stalled-snapshot scenarios (event::verif::c18s)
                          "stalled:scenarios-judged": 50, "stalled:scenarios-inside-window": 28, "stalled:flap-inside-window": 5,
                          "stalled:in-window/end-direct": 8, "stalled:in-window/end-fsm": 3, "stalled:in-window/up": 12,
                          "stalled:in-window/announce": 7, "stalled:in-window/withdraw": 5, "stalled:in-window/replace": 5,
                          "stalled:late-start-straddling-the-end-of-the-window": 11,
                          "stalled:rib-view-equal/established-peer": 160, "stalled:rib-view-equal/departed-peer": 80}),
     quick=[e2("conc", "event::verif::c18::run", 3, 120), e2("concb", "bmp::verif::c18b::run", 3, 120), e2("peertrack", "bmp::verif::c19b::c18_peer_tracking", 1, 120),
-           e2("stalled", "event::verif::c18::c18s::run", 1, 90)],
+           e2("stalled", "event::verif::c18s::run", 1, 90)],
     thorough=[e2("conc", "event::verif::c18::run", 8, 150), dict(e2("concb", "bmp::verif::c18b::run", 8, 150), seed_offset=100),
               e2("tsan", "event::verif::c18::run", 4, 120, flavor="tsan"),
               e2("miri", "event::verif::c18::run", 8, 200, flavor="miri", histories=2),
               dict(e2("peertrack", "bmp::verif::c19b::c18_peer_tracking", 2, 120), seed_offset=300),
-              dict(e2("stalled", "event::verif::c18::c18s::run", 3, 150), seed_offset=400)],
+              dict(e2("stalled", "event::verif::c18s::run", 3, 150), seed_offset=400)],
 )
